@@ -319,6 +319,8 @@ pub struct Scenario {
     pub blocked: Vec<usize>,
     pub refsat: Option<Vec<(usize, String)>>,
     pub ops: Vec<(Side, Verb)>,
+    /// the scenario as written
+    pub text: String,
 }
 
 fn idxs(s: &str, max: usize) -> Option<Vec<usize>> {
@@ -342,6 +344,13 @@ fn ref_alias(r: &str) -> Option<&'static str> {
 }
 
 impl Scenario {
+    /// The scenario text with the `S.worker` op removed.
+    pub fn text_without_worker(&self) -> String {
+        let (head, ops) = self.text.rsplit_once(" ops=").unwrap_or((&self.text, "-"));
+        let kept: Vec<&str> = ops.split(';').filter(|o| *o != "S.worker" && !o.is_empty()).collect();
+        format!("{head} ops={}", if kept.is_empty() { "-".to_string() } else { kept.join(";") })
+    }
+
     pub fn parse(text: &str) -> Option<Scenario> {
         let text = match text.find(" | ") {
             Some(i) => &text[..i],
@@ -433,7 +442,7 @@ impl Scenario {
                 ops.push((side, verb));
             }
         }
-        Some(Scenario { n, delegates, threshold, local, clone, scope, blocked, refsat, ops })
+        Some(Scenario { n, delegates, threshold, local, clone, scope, blocked, refsat, ops, text: text.trim().to_string() })
     }
 }
 
@@ -1002,6 +1011,8 @@ fn indexed(lab: &Lab, raw: &git2::Repository) -> Result<BTreeMap<(usize, String)
 pub struct CaseResult {
     pub outcome: Outcome,
     pub world: String,
+    /// the scenario text to record instead of the input (node-level part dropped as inconclusive)
+    pub scenario: Option<String>,
 }
 
 /// Which property's oracle classes to report (both oracles use the same run).
@@ -1076,7 +1087,11 @@ impl Lab {
                     let r = lab.run_in(sc, prop, &dir).map_err(|e| e.to_string());
                     let _ = std::fs::remove_dir_all(&dir);
                     match r {
-                        Ok(r) => Executed { line: format!("{} | {}", texts[i], r.world), outcome: r.outcome, setup_error: None },
+                        Ok(r) => Executed {
+                            line: format!("{} | {}", r.scenario.as_deref().unwrap_or(&texts[i]), r.world),
+                            outcome: r.outcome,
+                            setup_error: None,
+                        },
                         Err(e) => bad(Some(e)),
                     }
                 }
@@ -1266,16 +1281,30 @@ impl Lab {
         let blocked = BlockList::from_iter(sc.blocked.iter().map(|k| lab.keys[*k]));
         let refs_at: Option<Vec<RefsAt>> =
             refsat.as_ref().map(|v| v.iter().map(|(k, o)| RefsAt { remote: lab.keys[*k], at: (*o).into() }).collect());
+        let mut scenario_override: Option<String> = None;
+        let mut worker_inconclusive = false;
         let worker_obs: Option<WorkerObs> = if w.worker {
             if sc.scope.is_some() || !sc.blocked.is_empty() || sc.refsat.is_some() || w.a_rev || !w.a_dups.is_empty() {
                 return Err("the node-level run supports scope=all blocked=- refsat=- and the plain transport only".into());
             }
             let run = lab.worker.as_ref().ok_or("this harness binary cannot run scenarios at the node level")?;
             let job = WorkerJob { rid, server_repo: &s_path, local_repo: if sc.clone { None } else { Some(&l_path) } };
-            Some(run(&job)?)
+            match run(&job) {
+                Ok(o) => Some(o),
+                Err(e) if e.starts_with("inconclusive") => {
+                    // The two nodes never got to a verdict (load, timeouts): the case is recorded WITHOUT the
+                    // node-level observation — never as an outcome.
+                    worker_inconclusive = true;
+                    w.worker = false;
+                    scenario_override = Some(sc.text_without_worker());
+                    None
+                }
+                Err(e) => return Err(e.into()),
+            }
         } else {
             None
         };
+        let world = if worker_inconclusive { w.tokens() } else { world };
         let result = {
             let extra = w.a_dups.iter().map(|(k, o)| (ns_ref(&lab.keys[*k], SIGREFS), *o)).collect();
             let conn = UploadPack::spawn(&s_path, w.a_rev, extra)?;
@@ -1588,7 +1617,10 @@ impl Lab {
         tags.dedup();
         out.tags = tags;
         out.violations = viol;
-        Ok(CaseResult { outcome: out, world })
+        if worker_inconclusive {
+            out.tags.push("worker-inconclusive-skipped".into());
+        }
+        Ok(CaseResult { outcome: out, world, scenario: scenario_override })
     }
 }
 
